@@ -196,6 +196,48 @@ def has_guard(m, root, test_src):
     return None
 
 
+def _range_rejections(m, f, option_loop, names):
+    """Which of the range variables are rejected (error exit) when they are given with a number of values other than two - however
+    the test is written (four ifs, a loop over a table of (flag, value) pairs, a helper).  The statements after the option loop are
+    folded with the range variables symbolic, everything else they read unknown; a variable counts as rejected when some error exit
+    is taken under `var is not None and len(var) != 2` with all other ranges absent.  None when that part cannot be folded."""
+    tail = []
+    for st in f.body[f.body.index(option_loop) + 1:]:
+        # up to the first statement that constructs the dataset: the checks precede it
+        if any(isinstance(n, ast.Call) and (dotted(n.func) or "").endswith("Data") for n in ast.walk(st)):
+            break
+        tail.append(st)
+    keep = []
+    tainted = set(names)
+    for st in tail:
+        used = set(n.id for n in ast.walk(st) if isinstance(n, ast.Name) and isinstance(n.ctx, ast.Load))
+        if used & tainted:
+            keep.append(st)
+            tainted |= set(n.id for n in ast.walk(st) if isinstance(n, ast.Name) and isinstance(n.ctx, ast.Store))
+    if not keep:
+        return None
+    ev = symeval.Evaluator(m)
+    ev.merge_ifs = False
+    ev.loop_mode = "unroll2"
+    try:
+        ev.run_stmts(keep, env={n_: Rat.sym(n_) for n_ in names})
+    except (symeval.Undecided, AnalysisError, RecursionError):
+        return None
+    errs = [o for o in ev.outcomes if o.kind == "error"]
+    out = set()
+    probe = symeval.Evaluator(m)
+    for var in names:
+        src = "%s is not None and len(%s) != 2" % (var, var) + "".join(" and %s is None" % o_ for o_ in names if o_ != var)
+        try:
+            a_ = probe.ev(ast.parse(src, mode="eval").body, symeval.Path({n_: Rat.sym(n_) for n_ in names}, []))
+            mine = [boolq.conj(o.conds) for o in errs if any(("$" + var) in c.key() for c, _p in o.conds if isinstance(c, Rat))]
+            if mine and isinstance(a_, Rat) and boolq.implies(boolq.prop(a_), boolq.disj(mine), limit=18):
+                out.add(var)
+        except (boolq.TooBig, symeval.Undecided, AnalysisError):
+            pass
+    return out
+
+
 def check_arity_and_rejections(ctx, br, top, rest, guard, final, loops):
     prog = ctx.prog
     site = "verif.driver.run"
@@ -214,9 +256,11 @@ def check_arity_and_rejections(ctx, br, top, rest, guard, final, loops):
     # rejections after the loop
     ev = symeval.Evaluator(m)
     src = norm(f)
+    rejected = _range_rejections(m, f, loops[1], ("lat_range", "lon_range", "elev_range", "obs_range"))
     for var, flag in (("lat_range", "-latrange"), ("lon_range", "-lonrange"), ("elev_range", "-elevrange"), ("obs_range", "-obsrange")):
         g_ = has_guard(m, f, "%s is not None and len(%s) != 2" % (var, var))
-        ctx.ob("C13.3", site, g_ is not None, "%s without exactly two values is rejected" % flag, msg="the len(%s) != 2 rejection is gone or changed" % var)
+        ok = g_ is not None or (rejected is not None and var in rejected)
+        ctx.ob("C13.3", site, ok, "%s without exactly two values is rejected" % flag, msg="the len(%s) != 2 rejection is gone or changed" % var)
     ctx.ob("C13.3", site, has_guard(m, f, "dim_agg_length is not None and dim_agg_length <= 0") is not None, "-T <= 0 is rejected", msg="the -T > 0 validation is gone or changed")
     qb = br.get("-q")
     ok = qb is not None and has_guard(m, qb[0], "np.min(quantiles) < 0 or np.max(quantiles) > 1") is not None
